@@ -753,6 +753,9 @@ func (b *base) run(mode string, doc any) (out any, stage string, err error) {
 // edits
 
 func applyEdit(doc any, e Edit) (any, error) {
+	if strings.HasPrefix(e.Op, "graft:") {
+		return graft(doc, e)
+	}
 	switch e.Op {
 	case "set":
 		if _, ok := jsontree.Get(doc, e.Ptr); !ok && e.Kind != kRegime && e.Kind != kCtryTax {
@@ -869,10 +872,14 @@ func positions(doc any) []Pos {
 		ps = append(ps, p)
 	}
 	sort.Strings(ps)
+	have := map[string]bool{}
 	for _, p := range ps {
 		r := extMaps[p]
+		have[p] = true
 		out = append(out, Pos{Op: "put", Ptr: p, Ref: Ref{Kind: kExtKey, Country: r.Country, InCombo: r.InCombo}})
 	}
+	// extension maps the published schema allows and the example does not carry
+	out = append(out, schemaExtPositions(doc, have)...)
 	return out
 }
 
@@ -1030,7 +1037,7 @@ func values(b *base, p Pos, salt uint64) []Val {
 		add("malformed", lower, "EURO", "EU")
 	case kExtKey:
 		undefined := func(s string) bool { return len(d.Ext[s]) > 0 }
-		if p.Op == "put" {
+		if p.Op == "put" || strings.HasPrefix(p.Op, "graft:") {
 			// a new member: defined key with a good value, with a bad value, undefined key
 			for _, k := range sample(d.ExtKeys, quickN(3), salt) {
 				if !seen[k] {
@@ -1213,8 +1220,9 @@ func judgeSafely(c Case, o *vh.Obs) {
 func editsString(es []Edit) string {
 	var parts []string
 	for _, e := range es {
-		s := fmt.Sprintf("%s %s %s=%q", e.Op, e.Kind, e.Ptr, e.New)
-		if e.Op == "put" {
+		op, _, _ := strings.Cut(e.Op, ":")
+		s := fmt.Sprintf("%s %s %s=%q", op, e.Kind, e.Ptr, e.New)
+		if e.Op == "put" || op == "graft" {
 			s += fmt.Sprintf(":%q", e.Val)
 		}
 		parts = append(parts, s)
@@ -1343,7 +1351,7 @@ func drawValue(t *rapid.T, b *base, p Pos, label string) Val {
 			k, why = keyGen.Draw(t, label), "random"
 		}
 		v := Val{New: k, Why: why}
-		if p.Op == "put" {
+		if p.Op == "put" || strings.HasPrefix(p.Op, "graft:") {
 			v.Val = extSample[k]
 			if v.Val == "" || rapid.Bool().Draw(t, label+"-badval") {
 				v.Val = codeGen.Draw(t, label+"-val")
@@ -1383,7 +1391,7 @@ func init() {
 	vh.Describe(
 		"Cases are the 83 example documents with references replaced. Reference positions are found by walking the JSON tree: $regime, $addons[*], $tags[*], "+
 			"cat / rate / country of every tax combo, every key and every value of every `ext` map wherever it stands, every currency (document, exchange rates, items, ...) and every country "+
-			"(addresses, identities, tax_id, combos, item origin); plus insert positions (a tag, an addon, a missing $regime, a country override on every combo, one more extension on every combo and ext map). "+
+			"(addresses, identities, tax_id, combos, item origin); plus insert positions (a tag, an addon, a missing $regime, a country override on every combo, one more extension on every combo and ext map, an extension map on every object whose published schema allows one and that has none, and - for absent members whose published type allows one - a small instance of the member carrying the extension). "+
 			"`single` crosses every position with (a) other values the published files define for that kind (a seed-dependent sample in the quick tier, all of them in the thorough tier) and "+
 			"(b) undefined ones: one-character near misses of defined values, countries without a regime, keys of other regimes / addons, malformed and random well-formed keys / codes; "+
 			"`double` draws two replacements at random (half from those lists, half free strings). Two modes: `build` edits the example source and envelopes (calculates) it before validating; "+
